@@ -39,6 +39,22 @@ SEEDS = [
     "x = 10**100\ny = 1e400\nz = 0.1 + 2j\n",
 ]
 
+# lists with 10 children and more wherever a pass or a pattern keys on a child number (multi-digit path components)
+WIDE_SEEDS = [
+    "import " + ", ".join(f"m{j}" for j in range(12)) + "\n",
+    "from pkg import (\n" + "".join(f"    n{j} as p{j},\n" for j in range(13)) + ")\n",
+    "x = [" + ", ".join(str(j) for j in range(11)) + "]\ny = (" + ", ".join(f"-{j}" for j in range(1, 12)) + ")\n",
+    "f(" + ", ".join(f"a{j}" for j in range(12)) + ", *r, " + ", ".join(f"k{j}={j}" for j in range(11)) + ")\n",
+    "d = {" + ", ".join(f"'k{j}': -{j}" for j in range(10)) + "}\n",
+    " = ".join(f"t{j}" for j in range(11)) + " = None\n",
+    "".join(f"@d{j}\n" for j in range(10)) + "def f(" + ", ".join(f"p{j}" for j in range(11)) + ", /, " +
+    ", ".join(f"q{j}=u'{j}'" for j in range(10)) + "):\n" + "".join(f"    s{j} = -1\n" for j in range(11)),
+    "class C(" + ", ".join(f"B{j}" for j in range(10)) + "):\n    pass\n",
+    "try:\n    pass\n" + "".join(f"except E{j}:\n    pass\n" for j in range(10)),
+    "a < " + " < ".join(f"b{j}" for j in range(11)) + "\n",
+    "g = lambda " + ", ".join(f"v{j}" for j in range(10)) + ", /: ...\n",
+]
+
 # deliberately adversarial (the first two exhibited the findings F09 / F11, now repaired; the others exhibit F15a-d)
 ADVERSARIAL_SEEDS = [
     "@d\nasync def f():\n    pass\n",
@@ -316,18 +332,27 @@ def pass_pools():
 
     pools = {
         "suppress_kinds": ("chars", cat(["/kind=", "a", "/", "kind", "=", "'x'"], 4), 1),
-        "suppress_posonlyargs": ("chars", cat(["/args/posonlyargs/_length=", "a", "/args", "1", "23", "=", "x/"], 4), 1),
+        "suppress_posonlyargs": ("chars", cat(["/args/posonlyargs/_length=", "a", "/args", "1", "23", "=", "x/", "9", "10", "100"], 4), 1),
         "unquote": ("chars", cat(["=", "'", '"', "a", "b'", "/s"], 5), 1),
         "suppress_alias_pos": ("lines", ["/a/_type=alias", "/_type=alias", "/a/_pos=1:", "_pos=1", "a_pos=", "a_pos=b",
-                                         "/a/name=x", "/a/_type=aliasx", "", "/a/_type=alias/_pos=3"], 4),
+                                         "/a/name=x", "/a/_type=aliasx", "", "/a/_type=alias/_pos=3",
+                                         "/b/names/9/_type=alias", "/b/names/9/_pos=1:1-0-9-",
+                                         "/b/names/10/_type=alias", "/b/names/10/_pos=1:1-0-10-",
+                                         "/b/names/11/_type=alias", "/b/names/99/_type=alias", "/b/names/99/_pos=2:1-0-99-",
+                                         "/b/names/100/_type=alias", "/b/names/100/_pos=3:1-0-100-"], 3),
         "backport_all_constants": ("lines", ["/a/_type=Constant", "/_type=Constant", "/a/_hash=0x1", "/a/value=1",
                                              "/a/value='s'", "/a/value=b'x'", "/a/value=Ellipsis", "/a/value=",
                                              "/value=None", "", "/a/b/_type=Constant", "/a/b/value=True",
-                                             "/a/value=b\"q\"", "/a/valuex=2", "/a/value=\"d\""], 3),
+                                             "/a/value=b\"q\"", "/a/valuex=2", "/a/value=\"d\"",
+                                             "/b/1/_type=Constant", "/b/1/value=1", "/b/10/_type=Constant", "/b/10/_pos=1:1-10-",
+                                             "/b/10/value=2", "/b/100/value=3", "/b/9/value=4", "/b/99/_type=Constant"], 3),
         "simplify_negative_literals": ("lines", ["/a/_type=UnaryOp", "/a/_hash=1", "/a/op/_type=USub", "/a/op/_type=Not",
                                                  "/a/operand/_type=Num", "/a/operand/n=5", "/a/operand/n=",
                                                  "/a/operand/operand/n=7", "", "/_type=UnaryOp", "/op/_type=USub",
-                                                 "/operand/n=1", "/a/operand/_type=UnaryOp", "/a/operand/op/_type=USub"], 3),
+                                                 "/operand/n=1", "/a/operand/_type=UnaryOp", "/a/operand/op/_type=USub",
+                                                 "/b/1/_type=UnaryOp", "/b/10/_type=UnaryOp", "/b/10/op/_type=USub",
+                                                 "/b/10/operand/n=9", "/b/1/operand/n=11", "/b/100/operand/n=99",
+                                                 "/b/11/op/_type=USub"], 3),
     }
     return pools
 
@@ -446,6 +471,9 @@ def run(ctx):
             sources.append(src)
         for i, src in enumerate(ADVERSARIAL_SEEDS):
             ck.case("adversarial-seeds", f"adv{i}", src)
+        for i, src in enumerate(WIDE_SEEDS):
+            ck.case("wide-seeds", f"wide{i}", src)
+            sources.append(src)
         n_gen = 350 if ctx.tier == "quick" else 5500
         rejected = 0
         for depth, adv, share in ((3, 0.0, 0.35), (4, 0.15, 0.45), (6, 0.3, 0.2)):
